@@ -30,7 +30,7 @@
 (***************************************************************************)
 EXTENDS Integers, Sequences, FiniteSets, TLC
 
-CONSTANTS Scen,       \* which initial population (1..NScen)
+CONSTANTS Scens,      \* which initial populations (subset of 1..7), one initial state each
           MaxDepth,   \* histories of at most this many operations
           MaxH,       \* at most this many handles (bounds Copy)
           Vals,       \* tokens written by SetLeaf
@@ -121,7 +121,7 @@ OuterV(t) == [mid |-> MidV(t), z |-> t + 5]
 HolderV(t) == [r |-> NullLoc, h |-> t + 1]
 RenV(t) == [_x |-> t + 4, _in |-> LeafV(t), y |-> t + 5]
 A(c, b, v) == [cls |-> c, buf |-> b, val |-> v]
-InitHeap ==
+InitHeap(Scen) ==
   CASE Scen = 1 -> << A("Outer", 1, OuterV(10)), A("Mid", 2, MidV(20)) >>                              \* three levels, source in another buffer
     [] Scen = 2 -> << A("Holder", 1, HolderV(10)), A("Leaf", 1, LeafV(20)), A("Leaf", 2, LeafV(30)) >>  \* references within / across buffers
     [] Scen = 3 -> << A("Renamed", 1, RenV(10)), A("Leaf", 2, LeafV(20)) >>                             \* renamed scalar and renamed nested field
@@ -130,9 +130,10 @@ InitHeap ==
     [] Scen = 6 -> << A("Holder", 1, HolderV(10)), A("Holder", 1, HolderV(20)), A("Leaf", 1, LeafV(30)) >>  \* two holders sharing one target
     [] Scen = 7 -> << A("Mid", 1, MidV(10)), A("Leaf", 1, LeafV(20)) >>                                 \* two levels
 Init ==
-  /\ heap = InitHeap
-  /\ hs = [i \in 1..Len(InitHeap) |-> [cls |-> InitHeap[i].cls, node |-> FreshNode(InitHeap, InitHeap[i].cls, <<i, <<>>>>, TRUE)]]
-  /\ depth = 0
+  \E sc \in Scens :
+    /\ heap = InitHeap(sc)
+    /\ hs = [i \in 1..Len(InitHeap(sc)) |-> [cls |-> InitHeap(sc)[i].cls, node |-> FreshNode(InitHeap(sc), InitHeap(sc)[i].cls, <<i, <<>>>>, TRUE)]]
+    /\ depth = 0
 
 (* ------------------------------------------------------------------ actions *)
 Tick == depth' = depth + 1
@@ -178,6 +179,15 @@ SetRefRefused(e, f, src) ==
   /\ BufOf(heap, Node(hs, src).loc) # BufOf(heap, Node(hs, e).loc)
   /\ UNCHANGED <<hs, heap>> /\ Tick
 
+(* h.r = None: the attribute reflects the (now null) buffer data *)
+ClearRef(e, f) ==
+  /\ Valid(hs, e) /\ e[2] = <<>> /\ f \in Flds(ECls(hs, e)) /\ f.k = "ref"
+  /\ Node(hs, e).kids[f.n].loc # NullLoc
+  /\ LET N == Node(hs, e) IN
+     /\ heap' = [heap EXCEPT ![N.loc[1]].val = Put(@, Append(N.loc[2], f.n), NullLoc)]
+     /\ hs' = [hs EXCEPT ![e[1]].node.kids[f.n] = [loc |-> NullLoc]]
+  /\ Tick
+
 (* n = src.copy(_buffer = b): an independent equal object; a reference keeps its target inside the same buffer and *)
 (* gets a duplicate of the target in another buffer (DESIGN 1.5 "Copy")                                            *)
 Copy(src, b) ==
@@ -217,6 +227,7 @@ Next ==
      \/ \E e \in E : \E f \in FOf(e), v \in Vals : SetLeaf(e, f, v)
      \/ \E e \in E : \E f \in FOf(e), s \in E : SetNested(e, f, s)
      \/ \E e \in E : \E f \in FOf(e), s \in E : SetRef(e, f, s) \/ SetRefRefused(e, f, s)
+     \/ \E e \in E : \E f \in FOf(e) : ClearRef(e, f)
      \/ \E s \in E, b \in Bufs : Copy(s, b)
      \/ \E e \in E, b \in Bufs : MoveDo(e, b) \/ MoveRefused(e, b)
 Spec == Init /\ [][Next]_vars
